@@ -63,7 +63,7 @@ def g_str_items(rng, q):
 
 
 def g_lexeme(rng):
-    k = rng.choice(['num', 'ident', 'fixed', 'fast', 'pct', 'dim', 'hash', 'atkw', 'atkw',
+    k = rng.choice(['num', 'ident', 'identd', 'fixed', 'fast', 'pct', 'dim', 'hash', 'atkw', 'atkw',
                     'str', 'stri', 'stri', 'fn', 'fn', 'uri', 'uri', 'ur', 'cmt', 'cmt', 'cdc'])
     if k == 'num':
         d = _digits(rng)
@@ -71,6 +71,10 @@ def g_lexeme(rng):
     if k == 'ident':
         s = _ident(rng, IDENT_START)
         return 'ident,%s' % enc(s), s, ('IDENT', s)
+    if k == 'identd':
+        n = rng.choice([1, 2])
+        w = _ident(rng, NAME_START)
+        return 'identd,%X,%s' % (n, enc(w)), '-' * n + w, ('IDENT', '-' * n + w)
     if k == 'fixed':
         n, w, i = rng.choice(FIXED)
         return 'fixed,%s,%s,%X' % (n, enc(w), i), w, (n, w)
